@@ -122,6 +122,9 @@ pub fn announcement(d: &Desc, service: &str) -> Result<Vec<u8>, String> {
 #[derive(Clone, Debug, PartialEq, Eq, Serialize, Deserialize)]
 pub enum Event {
     Peer(Desc),
+    /// a genuine peer announcement whose additional section also carries records of names that
+    /// are not strict subdomains of the watched service
+    PeerWithForeignAdditional(Desc),
     Own,
     ServiceNameRecord,
     Foreign(Desc),
@@ -131,6 +134,16 @@ pub enum Event {
 fn event_bytes(e: &Event, own: &Desc) -> Result<Vec<u8>, String> {
     match e {
         Event::Peer(d) => announcement(d, SERVICE),
+        Event::PeerWithForeignAdditional(d) => {
+            let bytes = announcement(d, SERVICE)?;
+            let mut p = Packet::parse(&bytes).map_err(|e| format!("{:?}", e))?.clone();
+            let host = Name::new_unchecked("host.local");
+            let other = Name::new_unchecked("x._other._tcp.local");
+            p.additional_records.push(ResourceRecord::new(host.clone(), CLASS::IN, 120, RData::A(simple_dns::rdata::A { address: 0x0a090909 })));
+            p.additional_records.push(ResourceRecord::new(other.clone(), CLASS::IN, 120, RData::SRV(simple_dns::rdata::SRV { priority: 0, weight: 0, port: 9999, target: host.clone() })));
+            p.additional_records.push(ResourceRecord::new(service_name(), CLASS::IN, 120, RData::TXT(simple_dns::rdata::TXT::new().with_string("leak=1").map_err(|e| format!("{:?}", e))?)));
+            p.build_bytes_vec_compressed().map_err(|e| format!("{:?}", e))
+        }
         Event::Own => announcement(own, SERVICE),
         Event::ServiceNameRecord => {
             let mut p = Packet::new_reply(1);
@@ -183,7 +196,7 @@ pub fn check_history(events: &[Event]) -> Vec<Finding> {
                 add_response_to_resources(packet, &sn, &own_full, &mut store, &mut chan);
                 let notified: Vec<Desc> = rx.try_iter().map(|i| Desc::of(&i)).collect();
                 let want: Vec<Desc> = match e {
-                    Event::Peer(d) => {
+                    Event::Peer(d) | Event::PeerWithForeignAdditional(d) => {
                         expected.insert(d.name.clone(), d.clone());
                         if with_channel {
                             vec![d.clone()]
@@ -196,6 +209,7 @@ pub fn check_history(events: &[Event]) -> Vec<Finding> {
                 if notified != want {
                     let tag = match e {
                         Event::Peer(_) => "channel-peer",
+                        Event::PeerWithForeignAdditional(_) => "channel-peer-foreign-additional",
                         Event::Own => "channel-own-instance",
                         Event::ServiceNameRecord => "channel-service-name",
                         Event::Foreign(_) => "channel-foreign",
@@ -246,7 +260,7 @@ pub fn check_escape(s: &str) -> Vec<Finding> {
 }
 
 pub fn run(ctx: &Ctx) {
-    ctx.set_rule("6144 instance descriptions (3 names x all subsets of 4 addresses incl. an IPv4-mapped IPv6 address x all subsets of 3 ports x 16 attribute maps incl. absent/empty/non-empty values, a value containing '=', a 255-byte entry) each announced through the real path (into_records, announce-shaped packet, compressed bytes, parse, add_response_to_resources with and without a discovery channel) and read back through the channel and the get_known_services computation; announcement histories of depth <= 3 over a 7-event menu (two peers, identical re-announcement, the discoverer's own instance, records owned by the service name, a foreign service, a look-alike service name); escape/unescape over all strings of length <= 8 over {a,'.','\\'}. non-trivial = description has at least one address, port or attribute / history has a peer event");
+    ctx.set_rule("6144 instance descriptions (3 names x all subsets of 4 addresses incl. an IPv4-mapped IPv6 address x all subsets of 3 ports x 16 attribute maps incl. absent/empty/non-empty values, a value containing '=', a 255-byte entry) each announced through the real path (into_records, announce-shaped packet, compressed bytes, parse, add_response_to_resources with and without a discovery channel) and read back through the channel and the get_known_services computation; announcement histories of depth <= 3 over an 8-event menu (two peers, identical re-announcement, the discoverer's own instance, records owned by the service name, a foreign service, a look-alike service name); escape/unescape over all strings of length <= 8 over {a,'.','\\'}. non-trivial = description has at least one address, port or attribute / history has a peer event");
     ctx.assume("the announce-shaped packet mirrors ServiceDiscovery::announce: all instance records as answers, address records repeated as additional when an SRV record is present; the receiving store is initialised as ServiceDiscovery::new does (PTR at the service name + own instance records, authoritative)");
     let descs = descriptions();
     let chunks: Vec<&[Desc]> = descs.chunks(32).collect();
@@ -257,7 +271,8 @@ pub fn run(ctx: &Ctx) {
             if !d.ips.is_empty() || !d.ports.is_empty() || !d.attrs.is_empty() {
                 t.nontrivial += 1;
             }
-            let f = check_history(&[Event::Peer(d.clone())]);
+            let mut f = check_history(&[Event::Peer(d.clone())]);
+            f.extend(check_history(&[Event::PeerWithForeignAdditional(d.clone())]));
             t.outcome(if f.is_empty() { "faithful" } else { "unfaithful" });
             if !f.is_empty() {
                 ctx.violations(f);
@@ -274,6 +289,7 @@ pub fn run(ctx: &Ctx) {
         Event::Peer(d1.clone()),
         Event::Peer(d2.clone()),
         Event::Peer(d3.clone()),
+        Event::PeerWithForeignAdditional(d2.clone()),
         Event::Own,
         Event::ServiceNameRecord,
         Event::Foreign(d1.clone()),
@@ -299,7 +315,7 @@ pub fn run(ctx: &Ctx) {
         for h in hs.iter() {
             t.evals += 1;
             t.transitions += 2 * h.len() as u64;
-            if h.iter().any(|e| matches!(e, Event::Peer(_))) {
+            if h.iter().any(|e| matches!(e, Event::Peer(_) | Event::PeerWithForeignAdditional(_))) {
                 t.nontrivial += 1;
             }
             let f = check_history(h);
@@ -310,7 +326,7 @@ pub fn run(ctx: &Ctx) {
         }
     });
     ctx.add_states(hists.len() as u64 + descs.len() as u64);
-    ctx.space(&format!("announcement histories: every sequence of <= {} events over a 7-event menu", depth), hists.len() as u64, "complete");
+    ctx.space(&format!("announcement histories: every sequence of <= {} events over an 8-event menu", depth), hists.len() as u64, "complete");
     // escape / unescape
     let mut strs: Vec<String> = Vec::new();
     let mut b = Vec::new();
